@@ -196,6 +196,23 @@ fn check_floats(t: &mut Tape, ctx: &Ctx) -> Outcome {
             return Outcome::fail("number-format", format!("{:?} (source {}): printed {:?}: {}", v, src_of(&v), got, e), format!("{}", src_of(&v)));
         }
         nt |= got.contains('E') || got.contains('.');
+        // sign symmetry: the decimal after the sign position is a function of the magnitude alone
+        let mirrored = match &v {
+            Val::Sng(x) if *x != 0.0 && !x.is_nan() => Some(Val::Sng(-x)),
+            Val::Dbl(x) if *x != 0.0 && !x.is_nan() => Some(Val::Dbl(-x)),
+            _ => None,
+        };
+        if let Some(m) = mirrored {
+            let got_m = print_value(&mut term, &m);
+            let body = |s: &str| s.chars().skip(1).collect::<String>();
+            if body(&got) != body(&got_m) {
+                return Outcome::fail(
+                    "number-format-sign-asymmetry",
+                    format!("{:?} printed {:?} but {:?} printed {:?}: the digits after the sign position differ", v, got, m, got_m),
+                    format!("{} / {}", src_of(&v), src_of(&m)),
+                );
+            }
+        }
     }
     let o = Outcome::pass(nt, hash_str(&case));
     if ctx.render {
@@ -362,12 +379,12 @@ pub fn property() -> Property {
     Property {
         id: "C11",
         rule: "Cases: (integers) all 65536 Integers, exhaustive; (floats) proptest-generated Singles and Doubles: random bit patterns, neighbours of every power of ten, 7/9/15/17-digit decimals, subnormals, +-0, inf, NaN, n/8 and n/64 fractions, reciprocals — each stored in a typed variable and printed. \
-Number oracle: the text begins with a blank or a minus sign, ends with exactly one blank, the digits in between parse (correctly rounded, harness side) to the same bits of that type and have no more significant digits than the shortest round-trip representation; inf / NaN as in the manual. \
+Number oracle: the text begins with a blank or a minus sign, ends with exactly one blank, the digits in between parse (correctly rounded, harness side) to the same bits of that type and have no more significant digits than the shortest round-trip representation; inf / NaN as in the manual; and (sign symmetry) x and -x print the same text behind the sign position. \
 (layout) proptest-generated programs of PRINT statements whose items are strings (ASCII, multi-byte, with an embedded line feed), numbers, TAB(n) for n in {0,1,5,13,14,15,20,28,40,255,-1,-5,-14}, SPC, POS(0), separated by ; , juxtaposition, doubled commas, with and without trailing separator, across statements and lines, with INPUT, TRON trace, an error in mid-line, two runs in a row and a direct PRINT. \
 Layout oracle: the reference column model (characters since the last newline; `,` pads to the next multiple of 14 with at least one blank; TAB pads to the column if it is to the right, negative TAB to the next multiple; SPC n blanks; POS the column; trace text counts; INPUT and errors return to column 0); whole transcripts compared. The manual's own examples are checked literally. \
 Non-trivial: an Integer that needs a sign or > 4 digits / a float printed with a fraction or exponent / a layout case in which a trailing separator carried the column into the next statement. Distinct by value / program.",
         assumptions: vec![
-            "the layout model prints numbers with the reference formatter; the number sub-checks validate that text independently of any notation choice",
+            "the layout model prints numbers with the reference formatter; the number sub-checks validate that text independently of any notation choice (where plain notation ends and E-notation begins is not documented and not asserted, only that it does not depend on the sign)",
             "column after LIST or CLS inside a program is outside the statement",
         ],
         subs: vec![
